@@ -690,6 +690,9 @@ class NpModule(object):
 
     def f_finfo(self, I, fr, args, kwargs):
         dt = as_dtype(args[0])
+        if getattr(fr.st, 'eps_zero', False):
+            # C07: relative-epsilon fudge factors (finfo.resolution * 10) are taken as 0 (exact arithmetic, A1)
+            return I.PyModule('finfo', {'resolution': 0.0, 'eps': 0.0, 'max': float('inf'), 'tiny': 0.0})
         res = {'float16': 1e-3, 'float32': 1e-6, 'float64': 1e-15, 'float128': 1e-18, 'complex64': 1e-6, 'complex128': 1e-15}[dt.name]
         eps = {'float16': 2.0 ** -10, 'float32': 2.0 ** -23, 'float64': 2.0 ** -52, 'float128': 2.0 ** -63, 'complex64': 2.0 ** -23, 'complex128': 2.0 ** -52}[dt.name]
         return I.PyModule('finfo', {'resolution': res, 'eps': eps, 'max': float('inf'), 'tiny': 0.0})
